@@ -227,7 +227,7 @@ def cbmc_cmd(spec, gb, cover):
         # functional obligations only: memory-safety instrumentation is another harness's subject; slicing keeps what the assertions depend on
         cmd += ['--slice-formula']
         if not cover:
-            cmd += ['--no-standard-checks', '--unwinding-assertions']
+            cmd += ['--no-standard-checks'] + ([] if spec.get('unwinding_assertions') is False else ['--unwinding-assertions'])
     elif spec.get('slice'):
         cmd += ['--slice-formula']
     cmd += spec.get('cbmc', [])
@@ -442,6 +442,8 @@ def run_harness(spec, work_root, prop_id, replay_root):
                     mt = x.get('messageText', '')
                     if 'no body for function' in mt:
                         nobody.add(mt.split('no body for function')[-1].strip().split()[0])
+            if spec.get('nobody_ok') == '*':
+                nobody = set()
             nobody -= set(spec.get('nobody_ok', [])) | {'nondet_in'}
             nobody = {f for f in nobody if not f.startswith('nondet_') and not f.startswith('__CPROVER')}
             if nobody:
@@ -452,7 +454,7 @@ def run_harness(spec, work_root, prop_id, replay_root):
                 res['verdict'] = 'not_reached' if oom else 'error'
                 res['detail'] = 'cbmc gave no result table rc=%s %s %s' % (r['rc'], ' | '.join(msgs)[-800:], r['err'][-800:])
                 return res
-            failed = [x for x in results if x.get('status') == 'FAILURE']
+            failed = [x for x in results if x.get('status') == 'FAILURE' and not any(pat in x['property'] for pat in spec.get('ignore_failed', []))]
             only_unwind = failed and all('.unwind.' in x['property'] or 'recursion' in x['property'] for x in failed)
             if only_unwind and step + 1 < len(ladder):
                 continue          # bound too small for this input size: the unwinding assertion says so; climb the ladder
